@@ -48,6 +48,11 @@ package sync
 // range up to it has been scanned. scanNext / scanGap observe the scans.
 //@ ghost var scanNext int
 //@ ghost var scanGap bool
+// coveredTo: every block up to it has been handed to the driver's care (reported, hence tracked for reorgs if it is
+// not finalized, or lies below a reported block, so that any reorg touching it is noticed through that block);
+// cancelSeen: a header fetch was abandoned because the context ended (the loop is about to stop)
+//@ ghost var coveredTo int
+//@ ghost var cancelSeen bool
 //@ interface github.com/agglayer/aggkit/sync.EVMDownloaderInterface.WaitForNewBlocks (self, ctx, lastBlockSeen)
 //@   modifies nothing
 //@   ensures result >= lastBlockSeen && result < 9223372036854775808
@@ -67,26 +72,34 @@ package sync
 //@   props C05
 //@   requires d != nil && d.log != nil
 //@   requires forall(k, 0, len(blocks), blocks[k] != nil)
-//@   modifies region("chan:sync.EVMBlock.sent"), region("chan:sync.EVMBlock.nsent"), region("sync.EVMBlock.IsFinalizedBlock")
+//@   modifies region("chan:sync.EVMBlock.sent"), region("chan:sync.EVMBlock.nsent"), region("sync.EVMBlock.IsFinalizedBlock"), coveredTo
+//@   set coveredTo := ite(len(blocks) > 0 && blocks[len(blocks) - 1].Num > old(coveredTo), blocks[len(blocks) - 1].Num, old(coveredTo))
+//@   ensures[reported-blocks-are-covered] coveredTo == ite(len(blocks) > 0 && blocks[len(blocks) - 1].Num > old(coveredTo), blocks[len(blocks) - 1].Num, old(coveredTo))
 //@   loop 0 invariant d != nil && d.log != nil && forall(k, 0, len(blocks), blocks[k] != nil)
 
 //@ func (d *EVMDownloader) reportEmptyBlock
 //@   props C05
 //@   requires d != nil && d.log != nil && d.EVMDownloaderInterface != nil
 //@   requires[marker-only-after-the-scan] blockNum < scanNext
-//@   modifies region("chan:sync.EVMBlock.sent"), region("chan:sync.EVMBlock.nsent")
+//@   modifies region("chan:sync.EVMBlock.sent"), region("chan:sync.EVMBlock.nsent"), coveredTo, cancelSeen
+//@   choose cancelSeen with true
+//@   set coveredTo := ite(!cancelSeen && blockNum > old(coveredTo), blockNum, old(coveredTo))
+//@   ensures[marker-covers-its-block-unless-cancelled] cancelSeen || coveredTo >= blockNum
+//@   ensures[covered-never-shrinks] coveredTo >= old(coveredTo)
 
 //@ func (d *EVMDownloader) Download
 //@   props C05
 //@   requires d != nil && d.log != nil && d.EVMDownloaderInterface != nil
 //@   requires scanNext == fromBlock && !scanGap && fromBlock < 9223372036854775808 && d.syncBlockChunkSize < 4294967296
-//@   modifies heap, scanNext, scanGap
+//@   requires coveredTo + 1 == fromBlock && !cancelSeen
+//@   modifies heap, scanNext, scanGap, coveredTo, cancelSeen
 //@   ensures[no-block-skipped] !scanGap
 //@   loop 0 invariant d != nil && d.log != nil && d.EVMDownloaderInterface != nil && d.syncBlockChunkSize < 4294967296
 //@   loop 0 invariant lastBlock < 9223372036854775808
 //@   loop 0 invariant fromBlock <= 9223372036854775808
 //@   loop 0 invariant !scanGap
 //@   loop 0 invariant fromBlock <= scanNext
+//@   loop 0 invariant cancelSeen || fromBlock <= coveredTo + 1
 
 // ---- the driver's hand-over of one downloaded block (C05, C06): a block that is not finalized is registered with the
 // reorg detector before it is processed; the store's ProcessBlock is repeated until it succeeds once (never twice),
